@@ -43,11 +43,12 @@ theorem client_faithful (env : Env) (evs : List CEv) (st : Nat) (m : Bytes) (b :
     to the close): the status is the two ASCII digits before the first space of the first line, the meta
     is the rest of that line (present for 1x–3x, free of CR and LF), the body is present exactly for 2x and consists of exactly the bytes after
     the first CRLF, marked `decoded` exactly when the meta is text/* (and decoding is on) and then the
-    codec accepted those bytes; and the connection was closed cleanly -/
+    codec accepted those bytes; and - for a 2x response, whose body ends where the stream ends - the connection was
+    closed cleanly (a non-2x response is complete with its header line: fix 8049c3f) -/
 theorem client_faithful_stream (env : Env) (dt : Bool) (reads : List Bytes) (exc : Bool) (st : Nat) (m : Bytes)
     (b : Option Bytes) (d : Bool)
     (h : (crunFrom env (init dt) (streamEvs reads exc)).fut = .response st m b d) :
-    exc = false ∧ Faithful env dt reads.flatten st m b d := by
+    (exc = false ∨ ¬ (20 ≤ st ∧ st < 30)) ∧ Faithful env dt reads.flatten st m b d := by
   rw [(run_spec env dt reads exc).1] at h
   exact finish_response env dt _ exc st m b d h
 
@@ -58,6 +59,20 @@ theorem client_seg_indep (env : Env) (dt : Bool) (r1 r2 : List Bytes) (exc : Boo
     (crunFrom env (init dt) (streamEvs r1 exc)).closeReq = (crunFrom env (init dt) (streamEvs r2 exc)).closeReq := by
   rw [(run_spec env dt r1 exc).1, (run_spec env dt r2 exc).1, (run_spec env dt r1 exc).2, (run_spec env dt r2 exc).2, h]
   exact ⟨rfl, rfl⟩
+
+/-- a valid non-2x header IS the response: the call is resolved as soon as the header line is complete - before the
+    connection is lost - and neither what the server sends afterwards nor how the teardown goes (`exc`) changes it -/
+theorem client_nonsuccess_at_header (env : Env) (dt : Bool) (reads more : List Bytes) (exc : Bool) (st : Nat) (m : Bytes)
+    (h : phaseOf env reads.flatten = .closedPending st m) :
+    (feed env (init dt) reads).fut = .response st m none false ∧
+    (crunFrom env (init dt) (streamEvs (reads ++ more) exc)).fut = .response st m none false := by
+  have h1 : (feed env (init dt) reads).fut = .response st m none false := by
+    rw [(feed_spec env dt reads).1, h]; rfl
+  refine ⟨h1, ?_⟩
+  have hne : (feed env (init dt) reads).fut ≠ .pending := by rw [h1]; simp
+  unfold crunFrom streamEvs
+  rw [List.map_append, List.append_assoc, List.foldl_append, foldl_data]
+  rw [run_stable env _ _ hne]; exact h1
 
 /-- the same while the server stalls (no loss yet) -/
 theorem client_seg_indep_stall (env : Env) (dt : Bool) (r1 r2 : List Bytes) (h : r1.flatten = r2.flatten) :
@@ -105,6 +120,10 @@ example : (crunFrom envOk (init true) (streamEvs [[50, 48, 32, 120, 13], [10, 10
 -- "51 x\r\n" + trailing bytes: response without body, transport closed by the client
 example : (crunFrom envOk (init true) (streamEvs [[53, 49, 32, 120, 13, 10, 1, 2, 3]] false)).fut
     = .response 51 [120] none false := by decide
+-- … also when more bytes arrive in a later read and the teardown then fails (over TLS: data after the client's close_notify)
+example : (crunFrom envOk (init true) (streamEvs [[53, 49, 32, 120, 13, 10], [1, 2, 3]] true)).fut
+    = .response 51 [120] none false := by decide
+example : phaseOf envOk [53, 49, 32, 120, 13, 10] = .closedPending 51 [120] := by decide
 -- a codec that raises something unexpected still resolves the call
 example : (crunFrom envBadCodec (init true) (streamEvs [[50, 48, 32, 120, 13, 10, 104]] false)).fut = .error "codec" := by decide
 -- reset before any header
